@@ -96,15 +96,17 @@ claim("C12",
       "generated case, away from bracket boundaries where one ulp of the float-computed year fraction decides.",
       TB + AX_R + ".", "Coq proof over hand model of the tariff arithmetic + exact differential correspondence", "5.12")
 claim("C10",
-      "Step-level Gallina model of Greedy.step / Balanced.step with distribute_surplus_power and update_batteries, compared "
-      "EXACTLY (commands, SoCs, load dictionaries, station powers) with every sampled recorded step of exact greedy/balanced "
-      "runs, each with its exp/log oracle; the documented rule's first-order consequences (no charging beyond the desired SoC "
-      "without surplus or cheap price; batteries charge only from surplus or cheap power and discharge only against grid draw) "
-      "are evaluated independently on the same steps. PARTIAL: refinement theorems model = independent spec are not yet proved; "
-      "kernel theorems used by the rule (clamp_power, battery balance) are under C05/C01.",
-      TB + "The strategy model itself carries no theorem yet; its tie to the code is the exact per-step correspondence.",
-      "hand model of the strategy step + exact differential correspondence per step + independent rule predicates", "5.10",
-      category="translation_validation")
+      "Theorems (R instance) on the model of the per-vehicle decision of greedy and balanced, for all states: nothing is charged "
+      "at normal price once the desired SoC is reached; otherwise exactly one battery request whose target power is "
+      "clamp_power(min(power needed, remaining connector power [+ supporting battery power])) for greedy and "
+      "clamp_power(min(power needed / ceil(time to departure / interval), remaining connector power)) for balanced — non-negative, "
+      "within the station's remaining rating, never above the need or the even share, never above the available power; cheap price: "
+      "clamp_power(remaining connector power). The Coq model of the full strategy step (incl. surplus distribution and stationary "
+      "batteries) agrees EXACTLY (commands, SoCs, load dictionaries, station powers) with every sampled recorded step of exact "
+      "greedy/balanced runs. PARTIAL: no refinement theorem for the whole step; the rule's consequences for surplus/battery handling "
+      "are evaluated independently on the recorded steps. Known finding: balanced past the announced departure charges greedily.",
+      TB + AX_R + ".",
+      "Coq proof over hand model of the decision + exact differential correspondence per step + independent rule predicates", "5.10")
 claim("C18",
       "Theorem: split_feedin yields non-negative parts in the order generation > V2G > battery summing to the total feed-in; "
       "model tied by exact correspondence incl. 3-decimal rounding. PARTIAL: row construction and aggregates are checked cell by "
